@@ -975,6 +975,71 @@ def _key_graphs(quick):
     return out
 
 
+def _aliasing_graphs():
+    """One object occurring more than once in a graph (a DAG, no cycle): every occurrence must load back structurally
+    equal to the input. Whether the occurrences are still ONE object after load is counted, not claimed."""
+    child = O("NodeA", v=L("i-1"), arr=L("arr:i16:(3,)"), t=L("t_f32_grad"))
+    c = lambda: SH("c", child)  # noqa: E731
+    x = lambda d: SH("x", d)  # noqa: E731
+    arr, ten, pth = L("arr:f64:(2, 3)"), L("t_f32_grad_2x3"), L("path_rel")
+    lst, dct, st = C("list", L("s"), L("arr:i16:(3,)")), D(("k", L("t_f64")), ("n", L("none"))), C("set", L("s"), L("i-1"))
+    out = [
+        ("object_under_two_attributes", O("Root", a=c(), b=c())),
+        ("object_twice_in_a_list", O("Root", l=C("list", c(), c()))),
+        ("object_in_list_and_dict", O("Root", l=C("list", c(), L("s")), d=D(("k", c())))),
+        ("object_in_tuple_and_attribute", O("Root", a=c(), t=C("tuple", L("s"), c()))),
+        ("object_diamond", O("Root", p=O("NodeB", c=c(), v=L("s")), q=O("NodeC", c=c()))),
+        ("object_at_two_depths", O("Root", a=c(), p=O("NodeB", deep=O("NodeC", c=c())))),
+        ("object_three_times", O("Root", a=c(), l=C("list", c(), L("s")), d=D(("k", c()), ("n", L("none"))))),
+        ("ndarray_twice", O("Root", a=x(arr), b=x(arr), l=C("list", x(arr), L("s")))),
+        ("tensor_twice", O("Root", a=x(ten), l=C("list", x(ten), x(ten)), o=O("NodeA", t=x(ten)))),
+        ("list_twice", O("Root", a=x(lst), b=x(lst), l=C("list", x(lst), L("s")))),
+        ("dict_twice", O("Root", a=x(dct), l=C("list", x(dct), x(dct)))),
+        ("set_twice", O("Root", a=x(st), b=x(st))),
+        ("path_twice", O("Root", a=x(pth), l=C("list", x(pth), x(pth)), d=D(("k", x(pth))))),
+        ("module_twice", O("Root", a=x(L("linear")), l=C("list", x(L("linear")), L("s")))),
+    ]
+    return [(g, {"aliasing": name}) for name, g in out]
+
+
+def cycle_graphs():
+    """Objects that contain themselves. Not claimed by the property; what the library does is measured."""
+    return [
+        ("object_is_its_own_attribute", SH("r", O("Root", v=L("i-1"), me=BACK("r")))),
+        ("child_points_back_to_parent", SH("r", O("Root", v=L("s"), child=O("NodeA", v=L("i-1"), parent=BACK("r"))))),
+        ("child_in_list_points_back_to_root", SH("r", O("Root", v=L("s"), kids=C("list", O("NodeA", parent=BACK("r")), L("s"))))),
+        ("list_contains_itself", O("Root", l=SH("l", C("list", L("s"), BACK("l"))))),
+        ("dict_contains_itself", O("Root", d=SH("d", D(("k", L("s")), ("me", BACK("d")))))),
+    ]
+
+
+def mode_graphs():
+    """Reduced graph set for the global-mode family: every leaf kind, tensor layouts with requires_grad, modules, nesting."""
+    return {
+        "scalars_and_containers": O(
+            "Root", i=L("i2^40"), f=L("f-0.0"), n=L("nan"), s=L("s_unicode"), none=L("none"), b=L("true"), p=L("path_rel"), c=L("complex"),
+            by=L("bytes"), nps=L("np_f32"), npc=L("np_c64"), l=C("list", L("i-1"), L("f1.5")), m=C("list", L("s"), L("none"), C("tuple", L("i-1"), L("s"))),
+            st=C("set", L("s"), L("i-1")), d=D(("k", L("path_abs")), ("z", C("list"))),
+        ),
+        "arrays": O("Root", *[(f"a{i}", L(n)) for i, n in enumerate([
+            "arr:bool:(3,)", "arr:u8:(2, 3)", "arr:i64:()", "arr:f16:(3,)", "arr:f32:(2, 3)", "arr:f64:(2, 1, 2)", "arr:c64:(3,)", "arr:c128:(0, 3)",
+            "arr:U3:(3,)", "arr_struct", "arr_dt64", "av:strided:f64"])]),
+        "tensors": O(
+            "Root", a=L("t_f32_grad"), b=L("t_f64"), c=L("t_c64"), d=L("t_0d_grad"), e=L("t_param"), f=L("t_bool"), g=L("t_empty"),
+            l=C("list", L("t_f32_grad_2x3"), L("s")), dd=D(("k", L("t_i64"))),
+        ),
+        "tensor_views": O(
+            "Root", a=L("tv:row_view:f64:1"), b=L("tv:strided_view:f64:1"), c=L("tv:nonleaf_view:f64:1"), d=L("tv:transposed:f64:1"), e=L("tv:fresh:f64:1"),
+            f=L("tv:row_view:c64:1"), g=L("tv:scalar_view:f64:1"), h=L("tv:expanded:f64:0"), l=C("list", L("tv:narrow_1d:f64:1"), L("s")),
+            o=O("NodeA", t=L("tv:row_view:f64:1")),
+        ),
+        "modules": O("Root", m=L("linear"), s=L("sequential"), o=L("optimizer"), sc=L("scheduler"), r=L("rng"), lg=L("logger"), l=C("list", L("linear"), L("rng"))),
+        "nested_objects": O("Root", n=L("none"), child=O(
+            "NodeA", v=L("true"), arr=L("arr:f64:()"), t=L("t_f32_grad"),
+            child=O("NodeB", lst=C("list", O("NodeC", v=L("arr:i16:(3,)")), L("s")), p=L("path_rel")))),
+    }
+
+
 def _pair_graphs_quick(reps):
     """Quick tier: unordered pairs (with the diagonal) in lists and dicts, plus the reversed order whenever the
     second member is the numeric representative; unordered distinct hashable pairs in sets; the diagonal in
@@ -1025,7 +1090,7 @@ def grammar(tier):
         for kind in KINDS:
             if kind == "set" and not lf.hashable:
                 continue
-            if quick and kind == "tuple" and not lf.numeric:
+            if quick and kind == "tuple":  # tuples share the list decoder: thorough tier only
                 continue
             if quick and is_grid_arr and kind != "list" and not (n.endswith(":()") or n.endswith(":(0, 3)")):
                 continue
@@ -1033,7 +1098,8 @@ def grammar(tier):
             if lf.numeric and (kind == "list" or not quick):
                 with_sib.append(O("Root", x=CK(kind, L(n), L("s"))))
     add("leaf_in_container", singles)
-    add("numeric_leaf_next_to_string", with_sib)
+    if not quick:  # quick: covered by the sequence family ([number, "s"] for every numeric letter) and the int x str pair
+        add("numeric_leaf_next_to_string", with_sib)
     # C. pairs of dispatch classes as siblings in containers
     if quick:
         reps_q = {k: v for k, v in REPS.items() if k not in ("float", "bool", "np_scalar")}  # numeric x numeric is family F/G
@@ -1073,6 +1139,7 @@ def grammar(tier):
     if not quick:  # quick: subsumed by the key-spelling family below
         add("names", names)
     # J. memory layouts of tensors and arrays; K. spellings of dict keys and attribute names
+    add("aliasing", _aliasing_graphs())
     add("layout", _layout_graphs(quick))
     add("key_spelling", _key_graphs(quick))
     # I. wide containers (slot names with 1, 2 and 3 digits)
@@ -1578,6 +1645,103 @@ def save_load(obj, workdir, store, name="o", path_kind="str", save_kw=None, load
     try:
         with quiet():
             y = q_load(p, **(load_kw or {}))
+    except Exception as e:
+        return "load_raises", e
+    return "ok", y
+
+
+# ============================================================================= global modes
+GLOBAL_MODES = [
+    "no_grad", "set_grad_enabled_false", "inference_mode", "default_dtype_float64", "warnings_as_errors", "np_errstate_raise",
+    "cwd_relative_target", "private_tmpdir",
+]
+
+
+@contextlib.contextmanager
+def global_mode(mode, workdir):
+    """Process-wide state that a save / load may run under; restored on exit. `default` is a no-op."""
+    import tempfile
+
+    if mode == "default":
+        yield
+    elif mode == "no_grad":
+        with torch.no_grad():
+            yield
+    elif mode == "set_grad_enabled_false":
+        prev = torch.is_grad_enabled()
+        torch.set_grad_enabled(False)
+        try:
+            yield
+        finally:
+            torch.set_grad_enabled(prev)
+    elif mode == "inference_mode":
+        with torch.inference_mode():
+            yield
+    elif mode == "default_dtype_float64":
+        prev = torch.get_default_dtype()
+        torch.set_default_dtype(torch.float64)
+        try:
+            yield
+        finally:
+            torch.set_default_dtype(prev)
+    elif mode == "warnings_as_errors":
+        with warnings.catch_warnings():
+            warnings.simplefilter("error")
+            yield
+    elif mode == "np_errstate_raise":
+        with np.errstate(all="raise"):
+            yield
+    elif mode == "cwd_relative_target":
+        prev = os.getcwd()
+        os.chdir(workdir)
+        try:
+            yield
+        finally:
+            os.chdir(prev)
+    elif mode == "private_tmpdir":
+        priv = os.path.join(workdir, "private-tmp")
+        os.makedirs(priv, exist_ok=True)
+        prev_env, prev_td = os.environ.get("TMPDIR"), tempfile.tempdir
+        os.environ["TMPDIR"] = priv
+        tempfile.tempdir = None
+        try:
+            yield
+        finally:
+            if prev_env is None:
+                os.environ.pop("TMPDIR", None)
+            else:
+                os.environ["TMPDIR"] = prev_env
+            tempfile.tempdir = prev_td
+    else:
+        raise ValueError(mode)
+
+
+def save_load_under(obj, workdir, store, save_mode="default", load_mode="default", name="o"):
+    """Like save_load, the save running under one global mode and the load under another. Warnings are left alone
+    (only stdout is silenced) so that `warnings_as_errors` means what it says; other modes ignore warnings."""
+    rel = "cwd_relative_target" in (save_mode, load_mode)
+    p = (name + (".zip" if store == "zip" else "")) if rel else target(workdir, store, name)
+
+    @contextlib.contextmanager
+    def hush(mode):
+        with contextlib.redirect_stdout(io.StringIO()), warnings.catch_warnings():
+            if mode != "warnings_as_errors":
+                warnings.simplefilter("ignore")
+                yield
+            else:  # a finalizer that warns cannot raise: the interpreter prints 'Exception ignored' to stderr instead
+                with contextlib.redirect_stderr(io.StringIO()):
+                    yield
+
+    ps = p if save_mode == "cwd_relative_target" or not rel else os.path.join(workdir, p)
+    pl = p if load_mode == "cwd_relative_target" or not rel else os.path.join(workdir, p)
+    try:
+        with hush(save_mode), global_mode(save_mode, workdir):
+            obj.save(ps, store=store)
+    except Exception as e:
+        return "save_raises", e
+    try:
+        with hush(load_mode), global_mode(load_mode, workdir):
+            y = q_load(pl)
     except Exception as e:
         return "load_raises", e
     return "ok", y
